@@ -78,6 +78,14 @@ def read_cmd_line_file(build_dir: str, options: SharedCMDOptions) -> None:
         # literal_eval to get it into the list of strings.
         options.native_file = ast.literal_eval(properties.get('native_file', '[]'))
 
+def _write_config(filename: str, config: CmdLineFileParser) -> None:
+    # Write to a temporary file and rename it over the old one, so that an
+    # interrupted Meson never leaves a truncated command line file behind.
+    tempfilename = filename + '~'
+    with open(tempfilename, 'w', encoding='utf-8') as f:
+        config.write(f)
+    os.replace(tempfilename, filename)
+
 def write_cmd_line_file(build_dir: str, options: SharedCMDOptions) -> None:
     filename = get_cmd_line_file(build_dir)
     config = CmdLineFileParser()
@@ -90,8 +98,7 @@ def write_cmd_line_file(build_dir: str, options: SharedCMDOptions) -> None:
 
     config['options'] = {str(k): str(v) for k, v in options.cmd_line_options.items()}
     config['properties'] = {k: repr(v) for k, v in properties.items()}
-    with open(filename, 'w', encoding='utf-8') as f:
-        config.write(f)
+    _write_config(filename, config)
 
 def update_cmd_line_file(build_dir: str, options: SharedCMDOptions) -> None:
     filename = get_cmd_line_file(build_dir)
@@ -109,8 +116,7 @@ def update_cmd_line_file(build_dir: str, options: SharedCMDOptions) -> None:
         elif keystr in config['options']:
             del config['options'][keystr]
 
-    with open(filename, 'w', encoding='utf-8') as f:
-        config.write(f)
+    _write_config(filename, config)
 
 def format_cmd_line_options(options: SharedCMDOptions) -> str:
     cmdline = ['-D{}={}'.format(str(k), v) for k, v in options.cmd_line_options.items()]
